@@ -489,9 +489,9 @@ def ec(**kw):
     return c
 
 
-def env_gen(ck, name, kind="env", seeds=8, need=(), timeout=600, workers=12, **kw):
+def env_gen(ck, name, kind="env", seeds=8, need=(), timeout=600, workers=12, time_offset=0, **kw):
     c = ec(**kw)
-    rargs = ["--kind", kind, "--levels", c["NLevels"], "--ticks", ",".join(str(t) for t in c["Ticks"]), "--step", c["StepSize"],
+    rargs = (["--time-offset", time_offset] if time_offset else []) + ["--kind", kind, "--levels", c["NLevels"], "--ticks", ",".join(str(t) for t in c["Ticks"]), "--step", c["StepSize"],
              "--trading", "true" if c["Trading0"] else "false", "--seeds", seeds, "--base-seed", ck.seed, "--t0", c["T0"]]
     return ck.gen(name, "EnvGen", c, "replay_env", rargs, cfg=ENV_GEN, need=need, timeout=timeout, workers=workers)
 
@@ -611,6 +611,12 @@ def c08(tier, seed):
     env_gen(ck, "gen_menv", kind="menv", seeds=s, Ticks=(1, 2), StepSize=3, T0=7, Ops=["new", "cancel", "step", "disable", "enable"], Kinds=["L"] if q else ["L", "M"],
             Prices=[10], MaxSubmits=3, MaxBatch=3, MaxSteps=2, MaxOrders=2,
             need=("schedule_matters", "has_trade", "trading_toggled"), timeout=400 if q else 1800)
+    # clocks near the top of the 64-bit range (the last step ends 10 units below 2^64) and epoch-like clocks: the same outcome
+    # sets with every time shifted (the specification is invariant under a translation of time)
+    env_gen(ck, "gen_env_clock_top", kind="env", seeds=s, time_offset=(1 << 64) - 19, StepSize=3, T0=0, Ops=["new", "cancel", "step"], Kinds=["L", "M"],
+            Prices=[10], Vols=[1, 2], MaxSubmits=3, MaxBatch=3, MaxSteps=3, MaxOrders=3, need=("has_trade", "multi_step"), timeout=400 if q else 1800)
+    env_gen(ck, "gen_menv_clock_epoch", kind="menv", seeds=s, time_offset=1700000000123456789, Ticks=(1, 1), StepSize=2, T0=1, Ops=["new", "step"], Kinds=["L"],
+            Prices=[10], Vols=[1], MaxSubmits=3, MaxBatch=2, MaxSteps=2, MaxOrders=2, need=("has_trade", "multi_step"), timeout=400 if q else 1800)
     # long random runs, batches up to 25 instructions (step sizes from 1 to 1000): schedule from the hook, linear validation
     env_traces(ck, "rand_env_hook", {"max_batch": 48, "p_step": 0.04}, files=6 if q else 48, runs=3 if q else 6, ops=250, hook=True)
     # agent-generated load: complete simulations through the real runners (batches of tens of instructions)
